@@ -64,6 +64,8 @@ class Engine(CoreMixin, ExprMixin, CallMixin, StmtMixin, BuiltinMixin):
         if spec_ns is None:
             spec_ns, mods = spec_namespace()
             self.ctab.register_module_classes(mods)
+        from statham.schema.validation import base as _vb
+        assert self.ctab.sentinel(_vb._TRUE) == 1 and self.ctab.sentinel(_vb._FALSE) == 2
         self.spec_names = spec_ns
         self.inline_keys = set(inline_keys) | {"statham.schema.validation.base:Validator.__init__"}
         self.attr_kinds = {"params": ("dict", None)}
@@ -272,17 +274,27 @@ class Engine(CoreMixin, ExprMixin, CallMixin, StmtMixin, BuiltinMixin):
 
     # ------------------------------------------------------------------ SMT text
     def vc_text(self, o, with_check=True, rep=None):
-        parts = [smt.PRELUDE.replace(";;CLASS_TABLE;;", self.ctab.smt()), smt.speclib()]
         decls, glob, esc = rep.ctx if rep is not None else (self.decls, self.globals_assumed, self.escape_facts)
-        parts.extend(decls)
+        body = list(decls)
         for f in glob + esc:
-            parts.append(f"(assert {f})")
+            body.append(f"(assert {f})")
         for p in o.pc:
-            parts.append(f"(assert {p})")
+            body.append(f"(assert {p})")
         if o.expect == "unsat":
-            parts.append(f"(assert (not {o.goal}))")
+            body.append(f"(assert (not {o.goal}))")
         if with_check:
-            parts.append("(check-sat)")
+            body.append("(check-sat)")
+        btext = "\n".join(body)
+        parts = [smt.PRELUDE.replace(";;CLASS_TABLE;;", self.ctab.smt()), smt.speclib()]
+        # optional specification modules: only what the VC mentions / the contract asks for
+        contract = rep.contract if rep is not None else self.contract
+        if "(rbd " in btext:
+            parts.append(smt.spec_module("mod_rbd"))
+            for lem in getattr(contract, "lemmas", []) or []:
+                parts.append(smt.spec_module("lemma_" + lem))
+        if "is_json" in btext:
+            parts.append(smt.spec_module("mod_json_elem"))
+        parts.append(btext)
         return "\n".join(parts) + "\n"
 
     def discharge(self, rep, timeout, keep_dir, pool):
@@ -318,7 +330,7 @@ class Engine(CoreMixin, ExprMixin, CallMixin, StmtMixin, BuiltinMixin):
             rep, o = ro
             text = self.vc_text(o, rep=rep)
             if o.expect == "sat":
-                o.result = smt.solve_text(text, timeout=2.0, keep_dir=keep_dir, name=o.name, order=["z3-5.1.0"], quick_first=False)
+                o.result = smt.solve_text(text, timeout=getattr(self, "cover_timeout", 1.0), keep_dir=keep_dir, name=o.name, order=["z3-5.1.0"], quick_first=False)
             else:
                 o.result = smt.solve_text(text, timeout=timeout, keep_dir=keep_dir, name=o.name)
             return ro
